@@ -45,6 +45,11 @@ var readNames = []string{
 func fileBody(tag string, n int) []byte {
 	b := make([]byte, 0, n+16)
 	for i := 0; len(b) < n; i++ {
+		// multi-byte text in every other line: a window may start or end inside a character
+		if i%2 == 1 {
+			b = append(b, fmt.Sprintf("%s 줄 %d 오류 발생 ✓ %s\n", tag, i, filler(i%37, i))...)
+			continue
+		}
 		b = append(b, fmt.Sprintf("%s line %d %s\n", tag, i, filler(i%37, i))...)
 	}
 	return b[:n]
@@ -191,7 +196,7 @@ func drawRead(t *rapid.T) ReadCase {
 
 var specRead = pbt.Register(pbt.Spec[ReadCase]{
 	Prop: "C17", Name: "read-window",
-	Rule:  "a fresh home with files of generated sizes inside logs/ (plain, empty, nested, the logger's current file) and outside it (home/secret.txt, home/whatap.conf, a sibling directory); 1-10 Read(name, endpos, length) calls with names from a catalogue of 34 templates (inside, unreadable, and names with .. that resolve outside logs/), end positions negative / 0 / around the file size / beyond / extreme, lengths 1.. around the size .. extreme; oracle: a name that resolves lexically outside <home>/logs returns nil; otherwise nil or Text == content[Before:Before+len(Text)] with len(Text) <= length; non-trivial = at least one non-empty window served and at least one name pointing at an existing file outside logs/; distinct by case",
+	Rule:  "a fresh home with files of generated sizes (ASCII and multi-byte UTF-8 lines alternating) inside logs/ (plain, empty, nested, the logger's current file) and outside it (home/secret.txt, home/whatap.conf, a sibling directory); 1-10 Read(name, endpos, length) calls with names from a catalogue of 34 templates (inside, unreadable, and names with .. that resolve outside logs/), end positions negative / 0 / around the file size / beyond / extreme, lengths 1.. around the size .. extreme; oracle: a name that resolves lexically outside <home>/logs returns nil; otherwise nil or Text == content[Before:Before+len(Text)] with len(Text) <= length; non-trivial = at least one non-empty window served and at least one name pointing at an existing file outside logs/; distinct by case",
 	Quick: 1500, Thorough: 60000,
 	Draw: drawRead,
 	Run:  runRead,
